@@ -340,6 +340,10 @@ pub struct RunCtx {
     pub crash_victims: RefCell<BTreeSet<usize>>,
     /// blobs that were part of the storage when the last close began
     pub served_at_close: RefCell<BTreeSet<usize>>,
+    /// keys whose answers differed from the model in the last full comparison, with the record counts at that moment
+    pub mismatch_keys_last: RefCell<(BTreeSet<u8>, Vec<(usize, usize)>)>,
+    /// the same, frozen when a clean close began (None: records were appended since the comparison)
+    pub mismatch_before_close: RefCell<Option<BTreeSet<u8>>>,
     pub acked_before_crash: RefCell<BTreeSet<u32>>,
     pub quarantined_before: RefCell<BTreeSet<usize>>,
     pub scratch_counter: std::cell::Cell<u32>,
@@ -506,6 +510,8 @@ where
         forbidden_records: RefCell::new(BTreeSet::new()),
         crash_victims: RefCell::new(BTreeSet::new()),
         served_at_close: RefCell::new(BTreeSet::new()),
+        mismatch_keys_last: RefCell::new((BTreeSet::new(), Vec::new())),
+        mismatch_before_close: RefCell::new(None),
         acked_before_crash: RefCell::new(BTreeSet::new()),
         quarantined_before: RefCell::new(BTreeSet::new()),
         scratch_counter: std::cell::Cell::new(0),
